@@ -370,6 +370,30 @@ func genGdefs(run *vlib.Run, r *vlib.Rand, tier string) {
 	for k := 0; k < vlib.Count(tier, 3, 30); k++ {
 		add(genGdef(r, true), "gdef:glyphclass>64KiB")
 	}
+	// the same with every combination of the tables behind the glyph classes
+	// present or absent (each header offset has its own 16-bit guard), and
+	// with a glyph class table just below the limit and a large mark
+	// attachment class table pushing only the last offset over it
+	for k := 0; k < 4; k++ {
+		d := genGdef(r, true)
+		d.hasM, d.hasSets = k&1 != 0, k&2 != 0
+		if !d.hasM {
+			d.mac = nil
+		}
+		if !d.hasSets {
+			d.sets = nil
+		}
+		add(d, "gdef:glyphclass>64KiB", fmt.Sprintf("gdef:big-m%v-s%v", d.hasM, d.hasSets))
+	}
+	{
+		d := genGdef(r, true)
+		d.gc = d.gc[:20000] // about 40 KB
+		d.hasM, d.mac = true, nil
+		for g := 0; g < 20000; g++ {
+			d.mac = append(d.mac, pair{g, 1 + g%2})
+		}
+		add(d, "gdef:markattach-pushes-sets>64KiB")
+	}
 }
 
 
